@@ -2,7 +2,7 @@
    In the model every entry point is a total Gallina function whose only non-value outcomes are explicit error constructors
    (there is no Panic constructor on this path) and whose only fuel is the optimizer's, proved sufficient for every tree. *)
 Require Import ZArith NArith Bool List Arith. Import ListNotations.
-Require Import F64 Dec Types Generic Lang Opt IO OptFacts LangLaws Json.
+Require Import F64 Dec Types Generic Lang Opt IO OptFacts LangLaws Json DepthFacts.
 
 (* operators outside the supported set yield the specific error in unary, binary and ternary position *)
 Theorem C08_unary_other_ops_error : forall o v, match o with Minus | Not => False | _ => True end -> un o v = Er (InvalidUnary o).
@@ -17,4 +17,11 @@ Proof. exact terminates_closed_fuel. Qed.
 (* serialization is total and, for finite literals, invertible on every tree of every depth *)
 Theorem C08_serialize_then_deserialize : forall e fuel, fin_expr e = true -> (depth e <= fuel)%nat -> deser_expr fuel (ser_expr e) = Some e.
 Proof. exact C12_roundtrip. Qed.
-Print Assumptions C08_optimize_total. Print Assumptions C08_serialize_then_deserialize.
+(* optimize never deepens a tree, in any environment, for any fuel and on every outcome (finished, failed, out of fuel): whatever could walk the tree before can walk the result
+   (every consumer - execute, the validators, serialization, comparison - recurses no deeper than the tree it is given) *)
+Theorem C08_optimize_never_deepens : forall E k e acc, (depth (snd (fst (optimize_t E k e acc))) <= depth e)%nat.
+Proof. exact optimize_depth. Qed.
+Example C08_optimize_flattens_example : let e := ECall if_then_name [ELit (VBool true); EBin Plus (EVar [120%N]) (EVar [121%N]); EVar [122%N]] in
+  depth e = 3%nat /\ depth (snd (fst (optimize_t (mk_env [] []) (opt_fuel e) e []))) = 2%nat.
+Proof. vm_compute. split; reflexivity. Qed.
+Print Assumptions C08_optimize_total. Print Assumptions C08_optimize_never_deepens. Print Assumptions C08_serialize_then_deserialize.
